@@ -4,12 +4,13 @@
 # <lanes> parallel copies of /repo and /verif under /root/scratch/lanes (never touching /repo or
 # /verif), and writes one line per run to <out-file>:
 #   "<seeded-id> <check> quick CAUGHT|missed|INCONCLUSIVE :: <first message line>"
+# SEEDED_FILTER=<regex> restricts the run to the matching seeded ids.
 # The copies and their build output are removed at the end.
 set -u
 lanes=${1:-4}; out=${2:-/root/scratch/lanes/results.txt}; extra=${3:-}
 base=/root/scratch/lanes
 mkdir -p $base; : > "$out"
-ids=$(ls /verif/seeded | grep -E '^C[0-9]{2}-' | sort)
+ids=$(ls /verif/seeded | grep -E '^C[0-9]{2}-' | grep -E -e "${SEEDED_FILTER:-.}" | sort)
 # work list: "<id> <check>"
 list=$base/list.txt; : > $list
 for id in $ids; do echo "$id ${id%%-*}" >> $list; done
